@@ -1,9 +1,5 @@
 CONSTANTS LEVEL = 1
+          EMIT = TRUE
 INIT Init
 NEXT Next
-INVARIANT Supported
-INVARIANT Evaluates
-INVARIANT ClassExpectation
-INVARIANT NoIdentifierNoRead
-INVARIANT SoundAnalysisExists
-INVARIANT KeysAreKnown
+INVARIANT Laws
